@@ -177,7 +177,7 @@ def parse_vspec(path):
             raw_target = body
         elif kw == "hint":
             body = []
-            if rest.strip() in ("tail", "end", "result"):
+            if rest.strip() in ("tail", "end", "result", "begin"):
                 cur_fn.hints.append((rest.strip(), "", 1, body))
             else:
                 m = re.match(r"(before|after)\s+(\"(?:[^\"\\]|\\.)*\")(\s+#(\d+))?$", rest)
@@ -957,6 +957,10 @@ def process_fn(toks, it, fs: FnSpec, qual, ed: Edits, log, unit_in_trait_impl):
         chk0 = norm("\n".join(raw))
         if not (chk0.startswith("proof {") or chk0.startswith("assert") or chk0.startswith("let ghost")):
             raise SystemExit(f"{qual}: hint must be ghost code (proof block, assert, let ghost)")
+        if where == "begin":
+            # ghost declarations at the start of the body: independent of any statement of the function
+            ed.insert(toks[it.body_open].end, "\n" + "\n".join(raw) + "\n", prio=-1)
+            continue
         if where == "result":
             # R14: bind the tail expression to the named result so that ghost code can follow it:
             #   { stmts; E }  ->  { stmts; let r = E; <ghost>; r }
